@@ -113,8 +113,11 @@ def execute_tasks_h5(
                     file_name = os.path.join(cache_directory, task_key + ".h5in")
                     dump(file_name=file_name, data_dict=data_dict)
                     if not disable_dependencies:
+                        # a task whose result was taken from the cache directory has no process to wait for
                         task_dependent_lst = [
-                            process_dict[k] for k in future_wait_key_lst
+                            process_dict[k]
+                            for k in future_wait_key_lst
+                            if k in process_dict.keys()
                         ]
                     else:
                         if len(future_wait_key_lst) > 0:
